@@ -381,6 +381,11 @@ def impl(case):
     return _canon(case.data)
 
 
+def worker_impl(d):
+    """executed in a worker interpreter (props/_twoproc.py): the outcome line of one case"""
+    return _canon(d)
+
+
 # ---------------------------------------------------------------- oracle (model-free)
 def _eff_attrs(fn, attrs):
     if fn in DF_FNS:
@@ -400,6 +405,19 @@ def _comps_of(s, sep):
 
 
 def oracle(case):
+    msgs = _oracle(case)
+    if not msgs:
+        here = impl(case)
+        if here.startswith("rej:") and not case.data.get("hist"):
+            # a different root, a duplicate the caller disallowed, ...: refused whatever BIGTREE_CONF_ASSERTIONS says
+            from props import _twoproc
+            off = _twoproc.refusal_differs_off("props.C05:worker_impl", case.data, here, case.line, every=4)
+            if off is not None:
+                msgs.append(f"with BIGTREE_CONF_ASSERTIONS switched off the call is no longer refused as {here}: {off[:120]}")
+    return msgs
+
+
+def _oracle(case):
     d = case.data
     fn, sep, dup = d["fn"], d["sep"], d["dup"]
     items = d["items"]
